@@ -315,17 +315,6 @@ def lp_gate(case):
     obj = int(case.entry[1][1:])
     return rows >= 1 and len(vs) >= 2 and obj in vs
 
-def int_lt_float_const(case):
-    """m.props.less_than(x, c) with x an INTEGER variable and c a float constant that is not an integer: lowered to
-    x.next() <= c = x + 1 <= c, which excludes the integers in (c - 1, c): x in {-1, 0}, x < -0.5 has no solution.
-    (Found when the blanket attribution to lp_root was removed: not an LP matter, same answer with the LP step off.)"""
-    for r in case.rows:
-        t = r.text.split()
-        if r.route == "props" and len(t) == 4 and t[1] == "lt" and t[2].startswith("x") and t[3].startswith("f:") \
-                and not case.is_float(int(t[2][1:])) and Fraction(r.const).denominator != 1:
-            return True
-    return False
-
 def classify(line, impl, cls):
     why, cs = verdict(line, impl)
     if why is None:
@@ -343,8 +332,6 @@ def classify(line, impl, cls):
         return "bounds_pinch_offgrid"   # constant bounds pinch a float variable to a non-empty interval without a grid point
     if impl.startswith("err NoSolution") and any(r.linear and r.rel == "eq" and any(case.is_float(v) for v in r.coeffs) for r in case.rows):
         return "float_eq_offgrid"    # equality rows over float variables whose solution set misses the step grid
-    if int_lt_float_const(case):
-        return "int_lt_float_const"
     if impl.startswith("err NoSolution") and ORACLE_ROBUST.get(line)[0] == "infeasible":
         # the inequality analogue: <= / >= rows that pin a float variable between two bounds closer than the margin
         # (x0 >= 0.75 and x0 <= 0.75 at precision 1): no grid point passes the propagators.  Decided exactly: the model
